@@ -14,8 +14,10 @@ PROPERTY = "C34"
 LEVEL = "exploration"
 RULE = ("case = one run (start, 0..12 middle documents, stop) of seeded JSON-compatible documents (nested dicts/lists, "
         "strings with newlines, quotes, backslashes, unicode and commas/brackets, ints, floats, bools, nulls, empty "
-        "containers) pushed through JSONWriter (explicit / uid-derived file name) and JSONLinesWriter (fresh file, or a "
-        "pre-existing newline-terminated file with 1..4 earlier lines, incl. a previous run of the same writer); oracle: the "
+        "containers) pushed through JSONWriter (explicit / uid-derived file name, a leftover file under that name, a second run of "
+        "the same instance) and JSONLinesWriter (fresh file, or a pre-existing newline-terminated file with 1..4 earlier "
+        "lines under an explicit or uid-derived name, created before or after the writer was constructed, incl. a previous "
+        "run of the same writer); oracle: the "
         "JSONWriter file parses as a JSON array equal to the name/doc records in order; every JSONLines line parses on its "
         "own, the earlier lines are unchanged and the new lines equal the records in order; distinct = (writer, document "
         "sequence shape, pre-existing file shape)")
@@ -56,7 +58,8 @@ def run_case(case):
         sub = {"start": i, "count": 1, "seed": case["seed"]}
         d = tempfile.mkdtemp(prefix="c34")
         try:
-            writer = rng.choice(["json", "json-named", "jsonl", "jsonl-pre", "jsonl-tworuns"])
+            writer = rng.choice(["json", "json-named", "json-named-pre", "json-tworuns", "jsonl", "jsonl-pre", "jsonl-tworuns",
+                                 "jsonl-derived-pre", "jsonl-created-after-construction"])
             uid = f"{rng.randrange(16**8):08x}-aaaa-bbbb"
             nmid = rng.randint(0, 12)
             records = [("start", {"uid": uid, "time": 1.5, "md": rand_val(rng)})]
@@ -69,8 +72,19 @@ def run_case(case):
             problem = None
             exp = [{"name": n, "doc": dd} for n, dd in records]
             if writer.startswith("json") and not writer.startswith("jsonl"):
-                fn = "out.json" if writer == "json-named" else None
+                fn = "out.json" if writer in ("json-named", "json-named-pre") else None
+                if writer == "json-named-pre":
+                    # a leftover file under the same name: the new run replaces it
+                    with open(os.path.join(d, fn), "w") as f:
+                        f.write(rng.choice(['[\n{"name": "start", "doc": {"uid": "old"}},\n{"name": "stop", "doc": {}}\n]',
+                                            "left over, not even JSON", "[\n"]))
+                    counters["preexisting_files"] = 1
                 w = JSONWriter(d, fn)
+                if writer == "json-tworuns":
+                    # the same writer instance already wrote a run (it keeps its file name): the file holds the LAST run
+                    for n, dd in [("start", {"uid": uid, "v": rand_val(rng)}), ("event", {"uid": "e0"}), ("stop", {"uid": "s0"})]:
+                        w(n, dd)
+                    counters["preexisting_files"] = 1
                 for n, dd in records:
                     w(n, dd)
                 path = os.path.join(d, fn or f"{uid.split('-')[0]}.json")
@@ -82,15 +96,18 @@ def run_case(case):
                 except Exception as e:  # noqa: BLE001
                     problem = (f"file-does-not-parse:{type(e).__name__}", str(e)[:120])
             else:
-                fn = "log.jsonl"
+                fn = "log.jsonl" if writer != "jsonl-derived-pre" else None
                 old_lines = []
-                path = os.path.join(d, fn)
-                if writer == "jsonl-pre":
+                path = os.path.join(d, fn or f"{uid.split('-')[0]}.jsonl")
+                w = None
+                if writer == "jsonl-created-after-construction":
+                    w = JSONLinesWriter(d, fn)      # constructed before anybody created the file
+                if writer in ("jsonl-pre", "jsonl-derived-pre", "jsonl-created-after-construction"):
                     old_lines = [json.dumps({"name": "event", "doc": {"old": k, "s": rng.choice(TRICKY)}}) for k in range(rng.randint(1, 4))]
                     with open(path, "w") as f:
                         f.write("\n".join(old_lines) + "\n")
                     counters["preexisting_files"] = 1
-                w = JSONLinesWriter(d, fn)
+                w = w or JSONLinesWriter(d, fn)
                 if writer == "jsonl-tworuns":
                     first = [("start", {"uid": "first-run", "v": rand_val(rng)}), ("stop", {"uid": "s0", "v": 1})]
                     for n, dd in first:
